@@ -157,7 +157,7 @@ Section Knn.
     let count := (fst s + 1)%N in
     if (count <=? offset)%N then ((count, snd s), true)
     else
-      let w := sw_step (snd s) 1 in
+      let w := next_step count (snd s) in
       if radius_stop max_dist (i, d) then ((count, w), false)
       else
         let '(w', keep) := push_object test limit w (i, d) in
